@@ -567,7 +567,7 @@ def run_shard(params, rec):
         mode = MODES[(made // 2 + shard) % 3]
         strat = STRATS[(made + shard // 2) % 3]
         engine = "gcc" if made < n_gcc else "python"
-        bufwrite = (mode == "mem" and rng.random() < 0.3)
+        bufwrite = (mode == "mem" and rng.random() < 0.5)
         prog = P.make_program(rng, bits, mode, bufwrite=bufwrite)
         if engine == "gcc":
             # keep the number of single-instruction blocks to compile small
